@@ -122,7 +122,7 @@ class FlipsUnit(Unit):
 
         # 2. inverse mode undoes forward mode exactly, for every shape
         for fname in ('trans_orientation', 'image_flipping'):
-            fn = src.compile('detector', fname, ns)
+            fn = eng.compile('detector', fname, ns)
             for o in VALID:
                 for first, second in (('forward', 'inverse'), ('inverse', 'forward')):
                     c = Ctx()
@@ -145,8 +145,8 @@ class FlipsUnit(Unit):
                     ob(c, tag + '.every_pixel', T.And(si == i, sj == j))
 
         # 3. xy_to_detyz and detyz_to_xy are mutual inverses (real coordinates, all sizes)
-        f_xy = src.compile('detector', 'xy_to_detyz', ns)
-        f_dz = src.compile('detector', 'detyz_to_xy', ns)
+        f_xy = eng.compile('detector', 'xy_to_detyz', ns)
+        f_dz = eng.compile('detector', 'detyz_to_xy', ns)
         for o in VALID:
             for nm, f1, f2 in (('detyz_to_xy_inverts_xy_to_detyz', f_xy, f_dz), ('xy_to_detyz_inverts_detyz_to_xy', f_dz, f_xy)):
                 c = Ctx()
@@ -163,7 +163,7 @@ class FlipsUnit(Unit):
                 ob(c, tag, T.And(T.lift(back[0]) == x, T.lift(back[1]) == y), native=native_roundtrip(nm, o))
 
         # 4. the pixel map agrees with the image transformation: trans_orientation(img)[xy_to_detyz((x,y))] is img[x,y]
-        f_tr = src.compile('detector', 'trans_orientation', ns)
+        f_tr = eng.compile('detector', 'trans_orientation', ns)
         for o in VALID:
             c = Ctx()
             set_ctx(c)
